@@ -81,7 +81,10 @@ def sigv4_verify(method, raw_path, headers, body, secrets):
     want = hmac.new(k, sts.encode(), hashlib.sha256).hexdigest()
     if want != signature:
         raise SigError('signature mismatch; canonical request the service derives from the wire:\n' + creq)
-    if payload_hash != 'UNSIGNED-PAYLOAD' and payload_hash != hashlib.sha256(body).hexdigest():
+    if payload_hash == 'UNSIGNED-PAYLOAD':
+        # accepted by S3, but then nothing ties the signature to the bytes sent: C16 asks for a payload hash that matches
+        raise SigError(f'the payload ({len(body)} bytes) is not covered by the signature: x-amz-content-sha256 is UNSIGNED-PAYLOAD')
+    if payload_hash != hashlib.sha256(body).hexdigest():
         raise SigError(f'x-amz-content-sha256 does not match the body sent ({len(body)} bytes)')
     cl = hdrs.get('content-length')
     if cl is not None and int(cl[0]) != len(body):
@@ -399,7 +402,15 @@ class FakeB2(FakeService):
 
 
 def attach(backend, transport):
-    """Replace the backend's httpx client by one that talks to the fake, keeping the backend's own event hooks."""
+    """Make the backend's OWN httpx client talk to the fake: its transport is swapped, everything else the adapter
+    configured (event hooks, redirect policy, default headers, timeouts) stays.  The client is found by type, not by the
+    attribute it is kept in."""
+    clients = [v for v in vars(backend).values() if isinstance(v, httpx.AsyncClient)]
+    if clients and all(hasattr(c, '_transport') and hasattr(c, '_mounts') for c in clients):
+        for c in clients:
+            c._transport = transport
+            c._mounts = {}
+        return backend
     hooks = backend._client.event_hooks
     backend._client = httpx.AsyncClient(transport=transport, event_hooks=hooks, timeout=None)
     return backend
